@@ -246,15 +246,18 @@ Snap(b) == Fold(tip[b])
 VecAgrees ==
   \A q \in {"cbs", "sum", "fcbs"} :
     LET s == Snap("main") IN
-    s.ok => \A asg \in Assignments(s.o) :
-              Taint(q, s.o, s.v \cap s.o, asg) = {} => PlanResult(q, s.o, s.v \cap s.o, asg) = SeqResult(q, s.o)
+    \* (when the rule does not fire the plan IS the sequential plan)
+    (s.ok /\ Vectorized(q, s.o, s.v \cap s.o)) =>
+      LET ref == SeqResult(q, s.o) IN
+      \A asg \in Assignments(s.o) :
+         Taint(q, s.o, s.v \cap s.o, asg) = {} => PlanResult(q, s.o, s.v \cap s.o, asg) = ref
 \* adding or removing vector copies never changes a result: two commits with the
 \* same objects have the same results whatever their vector sets
 VectorsIrrelevant ==
   \* (the newest commit against every older one; older pairs were checked in earlier states)
   LET c2 == Len(commits) IN
   \A c1 \in 1..(c2 - 1) :
-    (Fold(c1).ok /\ Fold(c2).ok /\ Fold(c1).o = Fold(c2).o) =>
+    (Fold(c1).ok /\ Fold(c2).ok /\ Fold(c1).o = Fold(c2).o /\ Fold(c1).v \cap Fold(c1).o # Fold(c2).v \cap Fold(c2).o) =>
       \A q \in {"cbs", "sum", "fcbs"} : \A asg \in Assignments(Fold(c1).o) :
         (Taint(q, Fold(c1).o, Fold(c1).v \cap Fold(c1).o, asg) = {} /\ Taint(q, Fold(c2).o, Fold(c2).v \cap Fold(c2).o, asg) = {})
           => PlanResult(q, Fold(c1).o, Fold(c1).v \cap Fold(c1).o, asg) = PlanResult(q, Fold(c2).o, Fold(c2).v \cap Fold(c2).o, asg)
